@@ -206,7 +206,7 @@ class Model:
         return self.L if self.in_test else self.G
 
     def key(self):
-        return (self.G, self.L, self.in_test, self.has_outcome)
+        return (self.G, self.L, self.in_test, self.has_outcome, self.runs > 0, self.tests)
 
 
 T1 = PlaceHolder("t")
@@ -380,6 +380,9 @@ def run_shard(name, tier, seed):
     max_tests = 2 if tier == "quick" else 3
     sysm = System(name, max_tests)
     bfs(sysm, depth, res, label=name, sample_every=997)
+    if res.notes.get("max_depth", 0) < depth and not res.violations:
+        # guards against a vacuous search (a canonical state that wrongly absorbs its successors)
+        raise AssertionError("C17 exploration of %s stopped at depth %r < %d" % (name, res.notes.get("max_depth"), depth))
     res.notes["depth"] = depth
     return res
 
